@@ -263,7 +263,7 @@ struct smoothed_aggr_emin {
             }
 
             for(size_t i = 0, m = omega.size(); i < m; ++i)
-                omega[i] = math::inverse(denum[i]) * omega[i];
+                omega[i] = math::is_zero(denum[i]) ? math::zero<Val>() : math::inverse(denum[i]) * omega[i];
 
             // Update AP to obtain P: P = (P_tent - D^-1 A P Omega)
             /*
